@@ -93,8 +93,8 @@ TraceNext ==
        [] e.a = "Subscribe" ->
             /\ BindSrv(e) /\ obs' = [a |-> "Subscribe", got |-> e.obs.got, end |-> e.obs.end]
             /\ Always(e)
-            /\ Chk(up' => P_Subscribe(e.args.s, e.args.from), "P", e, "C17_Subscribe", 0)
-            /\ Chk(DoSubscribe(e.args.s, e.args.from), "I", e, "Subscribe", 0)
+            /\ Chk(up' => P_Subscribe(e.args.s, e.args.from, e.args.rev), "P", e, "C17_Subscribe", 0)
+            /\ Chk(DoSubscribe(e.args.s, e.args.from, e.args.rev), "I", e, "Subscribe", 0)
        [] e.a = "Tamper" ->
             /\ BindSrv(e) /\ obs' = [a |-> "Tamper"]
             /\ Always(e)
